@@ -224,7 +224,8 @@ Definition count_validate_fail (cs : list case) : list nat :=
 (* known-finding classes (computed on the oracle tables, i.e. on the input side):
      1  the expression's result does not survive FormatAny -> ParseAny (a string whose text reads as
         a number / bool / list / quoted text, nil, a float64 that fmt prints with an exponent ...)
-     2  the result is the empty string and the value is required (empty TagVal = "no value") *)
+     2  the result is the empty string: an empty TagVal means no value (error when required,
+        otherwise the field is left untouched, e.g. an `any` field stays nil) *)
 Definition roundtrip_ok (v : cval) : bool :=
   match format_any v with
   | Ok t => match parse_any t with
@@ -238,7 +239,7 @@ Definition kf_class (c : case) : nat :=
   match cexpr c with
   | Some u =>
     match evals_get u (cevals c) with
-    | Ok (VStr []) => if crequired c then 2%nat else 0%nat
+    | Ok (VStr []) => 2%nat
     | Ok v => if roundtrip_ok v then 0%nat else 1%nat
     | _ => 0%nat
     end
